@@ -106,9 +106,11 @@ WinCallReference(c, call, p) ==
     IN IF v = "nomatch" THEN (IF call.drop THEN "deny" ELSE "pass") ELSE v
 
 \* ---- probe connections (chosen from the case itself; choosing is not judging) -------------------------
-WinBig == 24
+WinBig == 24          \* address lists / IP sets longer than this are sampled for probe selection
+WinManyPorts == 6     \* port lists longer than this are sampled for probe selection
 WinSampleIdx(n) == { i \in {1, 2, n \div 2, 3999, 4000, 4001, 4002, 7999, 8000, 8001, n - 1, n} : 1 <= i /\ i <= n }
-WinSample(s) == IF Len(s) <= WinBig THEN s ELSE SetToSeq({ s[i] : i \in WinSampleIdx(Len(s)) })
+WinSampleOver(s, k) == IF Len(s) <= k THEN s ELSE SetToSeq({ s[i] : i \in WinSampleIdx(Len(s)) })
+WinSample(s) == WinSampleOver(s, WinBig)
 WinAclLists(rules) == UNION { { rules[i].localAddrs, rules[i].remoteAddrs } : i \in DOMAIN rules }
 \* first / last element of every long address list the real code rendered (= its chunk boundaries)
 WinIRBoundary(c) ==
@@ -120,7 +122,8 @@ WinProbeSets(c) ==
         ELSE [type |-> c.sets[id].type,
               members |-> SetToSeq(PSElems(WinSample(c.sets[id].members))
                                    \cup (IF c.sets[id].type = "net" THEN WinIRBoundary(c) ELSE {}))]]
-WinProbeRule(r) == [r EXCEPT !.srcPorts = WinSample(@), !.dstPorts = WinSample(@)]
+\* the action plays no role in choosing probes: rules that differ only in the action share their probes
+WinProbeRule(r) == [r EXCEPT !.action = "allow", !.srcPorts = WinSampleOver(@, WinManyPorts), !.dstPorts = WinSampleOver(@, WinManyPorts)]
 
 WinBlankRule ==
     [action |-> "allow", ipv |-> 0, proto |-> 0, notProto |-> 0, srcNets |-> <<>>, notSrcNets |-> <<>>, dstNets |-> <<>>,
@@ -169,6 +172,28 @@ WinL1Bad(c, probes) == UNION { WinBad(WinL1Eval(c, k, probes)) : k \in DOMAIN c.
 WinCaseOKWith(c, probes, l2eval) ==
     ~WinCaseInScope(c) \/ (c.panic = "" /\ WinBad(l2eval) = {} /\ WinL1Bad(c, probes) = {})
 WinCaseOK(c) == LET probes == WinProbes(c) IN WinCaseOKWith(c, probes, WinL2Eval(c, probes))
+
+(* Classification of a rejected case (a label for known_findings.json, not a verdict): policysets.go renders a
+   rule with a destination service set (DstIpPortSetIds) from the set members alone and ignores the rule's
+   protocol and source-side matches ("mutually exclusive with other fields ... The API validates against
+   this" - the API only forbids destination-side fields next to services).  WinOnlySvcMix holds when the case
+   has such a rule and is accepted once those extra matches are dropped from the REFERENCE side.        *)
+WinSvcExtra(r) == r.dstIpPortSets # <<>> /\ (r.proto # 0 \/ r.srcNets # <<>> \/ r.srcSets # <<>> \/ r.srcPorts # <<>>)
+WinSvcStrip(r) == IF WinSvcExtra(r) THEN [r EXCEPT !.proto = 0, !.srcNets = <<>>, !.srcSets = <<>>, !.srcPorts = <<>>] ELSE r
+WinSvcStripRules(rs) == WinSeq([i \in DOMAIN rs |-> WinSvcStrip(rs[i])])
+WinSvcStripPols(ps) == WinSeq([i \in DOMAIN ps |-> [ps[i] EXCEPT !.rules = WinSvcStripRules(ps[i].rules)]])
+WinSvcStripCase(c) ==
+    [c EXCEPT
+       !.tiers = WinSeq([i \in DOMAIN c.tiers |->
+                    [c.tiers[i] EXCEPT !.ingress = WinSvcStripPols(c.tiers[i].ingress), !.egress = WinSvcStripPols(c.tiers[i].egress)]]),
+       !.profiles = WinSeq([i \in DOMAIN c.profiles |->
+                    [c.profiles[i] EXCEPT !.ingress = WinSvcStripRules(c.profiles[i].ingress),
+                                          !.egress = WinSvcStripRules(c.profiles[i].egress)]]),
+       !.polsets = [id \in DOMAIN c.polsets |->
+                    [ingress |-> WinSvcStripRules(c.polsets[id].ingress), egress |-> WinSvcStripRules(c.polsets[id].egress)]]]
+WinOnlySvcMix(c, probes) ==
+    /\ \E dir \in WinDirs : \E r \in WinDirRules(c, dir) : WinSvcExtra(r)
+    /\ LET c2 == WinSvcStripCase(c) IN WinCaseOKWith(c2, probes, WinL2Eval(c2, probes))
 
 \* a printable explanation of a rejected case
 WinWitness(c, probes, l2eval) ==
